@@ -134,3 +134,25 @@ func streamCorpus() []CFrame {
 	corpusCache = out
 	return out
 }
+
+// minedBigFrames: PUBLISH frames whose remaining length, and others whose
+// payload length, is n-1, n, n+1 for the integer constants n >= 1024 found
+// in the tree under test and not in the pinned tree (a "large frames take
+// another path" branch has its threshold in the source); at most 24 frames.
+func minedBigFrames() []CFrame {
+	var out []CFrame
+	for _, n := range Mined.NovelLens {
+		if n < 1024 || n > 4<<20+1 || len(out) >= 24 {
+			continue
+		}
+		// payload of exactly n bytes
+		p := &spec.Packet{Type: 3, Topic: []byte("m/t"), Payload: gen.Content('L', n)}
+		out = append(out, CFrame{Name: fmt.Sprintf("publish.payload=%d", n), B: mustEncode(p, spec.Form{}), Valid: true, Type: 3})
+		// remaining length of exactly n bytes (topic 3 + its prefix 2 + property length 1)
+		if n > 8 {
+			q := &spec.Packet{Type: 3, Topic: []byte("m/t"), Payload: gen.Content('L', n-6)}
+			out = append(out, CFrame{Name: fmt.Sprintf("publish.remlen=%d", n), B: mustEncode(q, spec.Form{}), Valid: true, Type: 3})
+		}
+	}
+	return out
+}
